@@ -266,6 +266,19 @@ def run(run: Run):
     run.assumptions += ['clock is monotone (time.monotonic)', 'limits are >= 1 KiB/s or 0 (unlimited)']
     proved = run.prove(['tr_rate'])
 
+    # listed findings are replayed first, so that the KNOWN-FINDING line does not depend on the seed
+    for key, wit, _fixed in run.known_witnesses():
+        ops = [tuple(o) for o in wit['ops']]
+        w = monitor(ops, run_impl(ops))
+        run.case({'corpus': key})
+        if w and w[2] and w[0] <= 128 * TICK:
+            run.add_finding(Finding(F25_KEY, 'a poll that finds the bucket full leaves last_refill stale; the next refill credits '
+                                    'the idle time again: window bound exceeded by <= 128 B', {'ops': ops, 'window': w[1]},
+                                    observed=w[1]['granted'], expected=f"<= {w[1]['bound']}"))
+        elif w:
+            run.add_finding(Finding('window-bound-exceeded', f'granted {w[1]["granted"]} B in a window allowing {w[1]["bound"]} B',
+                                    {'ops': ops, 'window': w[1]}))
+
     ncases = 600 if run.tier == 'quick' else 6000
     maxlen = 60 if run.tier == 'quick' else 120
     cases = []
